@@ -53,10 +53,8 @@ def operator_internal_names():
     return sorted(n for n in names if n not in kw and not n[0].isupper())
 
 
-def templates():
-    T = []
-    # names bound by operator implementations must not leak into, or overwrite, the caller's scope:
-    # the victim is a PARAMETER (read at run time, after the operator ran in the same scope layer)
+def internal_ops():
+    """one use of every operator whose implementation binds names of its own"""
     src3 = ("array", [I(1), ("f", 2.5), I(3)])
     ops = {
         "tfilter": lambda: ("post", "collect", ("tfilter", ("post", "iter", src3), INT)),
@@ -70,6 +68,14 @@ def templates():
         "reduce": lambda: ("reduce", ("post", "iter", ("array", [I(1)])), I(0), ("fn", [("a", INT), ("b", INT)], INT, [("return", V("a"))])),
         "for": lambda: ("for", "q", ("post", "iter", ("array", [I(1)])), ("block", [V("q")])),
     }
+    return ops
+
+
+def templates():
+    T = []
+    # names bound by operator implementations must not leak into, or overwrite, the caller's scope:
+    # the victim is a PARAMETER (read at run time, after the operator ran in the same scope layer)
+    ops = internal_ops()
     for w in operator_internal_names():
         for on, mk in ops.items():
             T.append([("fndecl", "run", [(w, INT)], ("any",), [("set", "r", mk()), ("return", ("tuple", [V(w), V("r")]))]),
